@@ -128,6 +128,18 @@ Theorem pad_multiple : forall m origin max_size request_payload prefer_truncatio
 Proof. exact pad_multiple_lemma. Qed.
 Print Assumptions pad_multiple.
 
+(* with prefer_truncation (and no padding) TooBig is never raised: record sets that do not fit are left out, and
+   the reserved OPT and TSIG records always fit - the OPT reserve is exact and the TSIG record, written with
+   compression, is at most its reserved (uncompressed) size, a pointer only ever replacing a suffix of two or
+   more labels.  (The reserves themselves must leave room for the header: otherwise Renderer.reserve raises
+   ValueError, known finding C08-reserve-valueerror.) *)
+Theorem trunc_no_toobig : forall m o max_size request_payload tr,
+  compute_tsig_reserve m = Ok tr ->
+  compute_opt_reserve m 0 + tr + 12 <= eff_limit max_size request_payload ->
+  to_wire m o max_size request_payload true 0 <> Lib eTooBig.
+Proof. exact trunc_no_toobig_lemma. Qed.
+Print Assumptions trunc_no_toobig.
+
 (* ---- dns.renderer.Renderer used directly ---- *)
 (* a Renderer created with max_size, after ANY sequence of add_question / add_rrset / reserve /
    release_reserved / add_opt (any padding arguments) / write_header / _write_tsig calls in any order, with
